@@ -39,6 +39,24 @@ static std::vector<long> format_value(T value, int fmt, unsigned precision, bool
     prefix_ok = ss.Length() >= 2 && ss.First()[0] == '#' && ss.First()[1] == '1';
     std::vector<long> o;
     for (SizeT i = 2; i < ss.Length(); ++i) o.push_back((long)(unsigned char)ss.First()[i]);
+    // the same conversion into streams WITHOUT slack: a stream of a fixed capacity filled so that the number's digits end exactly at, just
+    // before and just behind the capacity (ASan sees a store behind the block; a digit read behind the content shows as a different text,
+    // because the earlier content of these streams - '9's, then cleared to the fill level - differs from a fresh stream's)
+    const SizeT len = (SizeT)o.size();
+    for (SizeT slack = 0; slack <= len + 2 && slack <= 24; ++slack) {
+        StringStream<char> full(32);
+        const SizeT cap = full.Capacity();
+        if (cap < slack) break;
+        for (SizeT i = 0; i < cap; ++i) full += '9';
+        full.Clear();
+        for (SizeT i = 0; i + slack < cap; ++i) full += 'P';
+        const SizeT at = full.Length();
+        Digit::NumberToString(full, value, info);
+        bool same = (full.Length() == at + len);
+        for (SizeT i = 0; same && i < len; ++i) same = ((long)(unsigned char)full.First()[at + i] == o[i]);
+        for (SizeT i = 0; same && i < at; ++i) same = (full.First()[i] == 'P');
+        if (!same) prefix_ok = false;
+    }
     return o;
 }
 template <typename T, typename Ch>
